@@ -114,7 +114,7 @@ func init() {
 		},
 		Deadline: func(tier string) int {
 			if tier == "thorough" {
-				return 3000
+				return 1000
 			}
 			return 300
 		},
